@@ -844,9 +844,10 @@ func hsOpenClientFrameID(authKey, pkt []byte) (salt int64, msgID uint64, body []
 
 // hsStore records every Store; Load finds nothing. SessionLoader is an interface anyone may implement, and
 // there is more than one way of saying "nothing stored" (Mode):
-//   "" / "notfound"   (nil, *errs.NotFoundError)   what the file loader of the repository does
-//   "nil"             (nil, nil)                   what a store that simply returns what it holds does
-//   "fail"            (nil, some other error)      the storage cannot be read: NewMTProto has to give up
+//
+//	"" / "notfound"   (nil, *errs.NotFoundError)   what the file loader of the repository does
+//	"nil"             (nil, nil)                   what a store that simply returns what it holds does
+//	"fail"            (nil, some other error)      the storage cannot be read: NewMTProto has to give up
 type hsStore struct {
 	mu     sync.Mutex
 	Mode   string
@@ -951,7 +952,7 @@ func hsErrClass(err error) string {
 	if _, ok := errors_Cause(err).(*mtproto.ErrResponseCode); ok {
 		return "rpcError"
 	}
-	return "other"
+	return "?" // an error whose text the harness does not know (a reworded message): class left open
 }
 
 // errors_Cause: github.com/pkg/errors.Cause without importing it under a clashing name.
@@ -996,11 +997,13 @@ var hsAftermath bool
 
 // hsWarnMode: what the application does with the client's Warnings channel (a public field it may set after
 // NewMTProto) while hsExchangeOn runs the exchange:
-//   "" / "nil"   leaves it nil (the default)
-//   "buffered"   a channel with room (what telegram.NewClient makes), read only after the exchange
-//   "unread"     an unbuffered channel nobody receives from until CreateConnection has returned (the application
-//                starts its printing goroutine once it is connected)
-//   "drained"    an unbuffered channel with a goroutine receiving from it all the time
+//
+//	"" / "nil"   leaves it nil (the default)
+//	"buffered"   a channel with room (what telegram.NewClient makes), read only after the exchange
+//	"unread"     an unbuffered channel nobody receives from until CreateConnection has returned (the application
+//	             starts its printing goroutine once it is connected)
+//	"drained"    an unbuffered channel with a goroutine receiving from it all the time
+//
 // In every mode the channel is received from once CreateConnection has returned (or the watchdog has fired).
 var hsWarnMode string
 
@@ -1294,9 +1297,10 @@ func hsKeyPool(r *Rand, n int) []*rsa.PrivateKey {
 }
 
 // hsKeyObj: how the caller holds the public key it configures its clients with, over several exchanges.
-//   fresh   a new rsa.PublicKey object for every exchange
-//   slot    ONE object, assigned the next key before each exchange (*slot = rsa.PublicKey{N, E})
-//   setn    ONE object whose modulus big.Int is overwritten in place (slot.N.Set(n); slot.E = e)
+//
+//	fresh   a new rsa.PublicKey object for every exchange
+//	slot    ONE object, assigned the next key before each exchange (*slot = rsa.PublicKey{N, E})
+//	setn    ONE object whose modulus big.Int is overwritten in place (slot.N.Set(n); slot.E = e)
 type hsKeyObj struct {
 	Mode string
 	slot *rsa.PublicKey
